@@ -46,9 +46,40 @@ MUTANTS = [
  ("c12-force-verso", "C12", "C12.R1", "html/layout/blocks.go", 'return pageBreak == "page" || pageBreak == "left" || pageBreak == "right" || pageBreak == "recto" || pageBreak == "verso"\n}', 'return pageBreak == "page" || pageBreak == "left" || pageBreak == "right" || pageBreak == "recto"\n}'),
  ("c12-choice", "C12", "C12.R1", "html/layout/blocks.go", '\t\t{"page", "avoid-page"}:     true,\n', ''),
  ("c12-nth-zero", "C12", "C12.R2", "html/tree/style.go", "\t\tif a == 0 {\n\t\t\treturn offset == 0\n\t\t} else {\n\t\t\treturn offset/a >= 0 && offset%a == 0\n\t\t}", "\t\treturn offset/a >= 0 && offset%a == 0"),
+ # --- rules built in later sessions
+ ("c01-marker-case", "C01", "C01.R1", "html/boxes/build.go", '\tcase "before", "after", "marker":', '\tcase "before", "after":'),
+ ("c01-new-keyword", "C01", "C01.R1", "css/validation/validation.go", '\tcase "fill", "contain", "cover", "none", "scale-down":\n\t\treturn pr.String(keyword)', '\tcase "fill", "contain", "cover", "none", "scale-down", "crop":\n\t\treturn pr.String(keyword)'),
+ ("c01-leader-int", "C01", "C01.R2", "html/layout/leader.go", "numberOfLeaders := int(line.Width.V() / textBox.Width.V())", "numberOfLeaders := int(line.Width.V()) / int(textBox.Width.V())"),
+ ("c01-use-remote", "C01", "C01.R3", "svg/elements.go", "\t\tcontext.inUseIDs.Add(url)\n", ""),
+ ("c01-href-delete", "C01", "C01.R3", "svg/tree.go", '\tdelete(node.attrs, "href")\n', ''),
+ ("c01-var-unscoped", "C01", "C01.R3", "html/tree/style.go", "\t\tvisiting.Add(variableName)\n\t\tdefer delete(visiting, variableName)\n\t}\n", "\t}\n\tvisiting.Add(variableName)\n\tdefer delete(visiting, variableName)\n"),
+ ("c01-discarded-ok", "C01", "C01.R4", "svg/svg.go", "\t\t\t\tif child, ok := node.children[0].graphicContent.(*textSpan); ok {\n\t\t\t\t\ttextAnchor = child.textAnchor\n\t\t\t\t}", "\t\t\t\tchild, _ := node.children[0].graphicContent.(*textSpan)\n\t\t\t\ttextAnchor = child.textAnchor"),
+ ("c01-unbounded-loop", "C01", "C01.R5", "html/layout/layout.go", "for loop := 0; loop < maxLoops; loop += 1 {", "for loop := 0; ; loop += 1 {"),
+ ("c01-empty-marker", "C01", "C01.R7", "html/boxes/build.go", 'if markerText := cs.RenderMarker(style.GetListStyleType(), counterValue); markerText != "" {', 'if markerText := cs.RenderMarker(style.GetListStyleType(), counterValue); true {'),
+ ("c07-array-index", "C07", "C07.R1", "svg/parser.go", "\t\tcopy(tr.args[:], points)\n", "\t\tfor i, p := range points {\n\t\t\ttr.args[i] = p\n\t\t}\n"),
+ ("c07-len-guard", "C07", "C07.R1", "css/validation/expanders.go", "\tif len(chunks) != 2 {\n\t\treturn nil, ErrInvalidValue\n\t}\n\n\tvar (\n\t\tautoTrack = -1", "\tif len(chunks) < 2 {\n\t\treturn nil, ErrInvalidValue\n\t}\n\n\tvar (\n\t\tautoTrack = -1"),
+ ("c08-var-descend", "C08", "C08.R5", "html/tree/style.go", "\t\treturn []Token{pa.NewFunctionBlock(token.Pos(), fn.Name, arguments)}\n", "\t\ttoken = pa.NewFunctionBlock(token.Pos(), fn.Name, arguments)\n\t\tif resolved := resolveVar(computed, token, visiting); len(resolved) != 0 {\n\t\t\treturn resolved\n\t\t}\n\t\treturn []Token{token}\n"),
+ ("c09-grid-class", "C09", "C09.R3", "html/boxes/build.go", "func gridChildren(box Box, children []Box) []Box {\n\tif GridContainerT.IsInstance(box) {", "func gridChildren(box Box, children []Box) []Box {\n\tif GridT.IsInstance(box) {"),
+ ("c10-margin-getter", "C10", "C10.R1", "html/layout/percentages.go", "box.MarginRight = resolveOnePercentage(box.Style.GetMarginRight(), pr.PMarginRight, cbWidth.V(), 0)", "box.MarginRight = resolveOnePercentage(box.Style.GetMarginLeft(), pr.PMarginRight, cbWidth.V(), 0)"),
+ ("c10-padding-ref", "C10", "C10.R1", "html/layout/percentages.go", "box.PaddingTop = resolveOnePercentage(box.Style.GetPaddingTop(), pr.PPaddingTop, maybeHeight.V(), 0)", "box.PaddingTop = resolveOnePercentage(box.Style.GetPaddingTop(), pr.PPaddingTop, cbHeight.V(), 0)"),
+ ("c10-box-sizing", "C10", "C10.R3", "html/layout/percentages.go", '\tcase "padding-box":\n\t\thorizontalDelta = box.PaddingLeft.V() + box.PaddingRight.V()\n', '\tcase "padding-box":\n\t\thorizontalDelta = box.PaddingLeft.V() + box.PaddingRight.V() + box.BorderLeftWidth.V()\n'),
+ ("c11-side-slip", "C11", "C11.R3", "html/layout/inline.go", "newBox.MarginBottom = halfLeading - newBox.BorderBottomWidth.V() - newBox.PaddingBottom.V()", "newBox.MarginBottom = halfLeading - newBox.BorderBottomWidth.V() - newBox.PaddingTop.V()"),
+ ("c14-clip-no-path", "C14", "C14.R1", "svg/elements.go", "\t\tdst.Rectangle(0, 0, width, height)\n\t\tdst.State().Clip(false)", "\t\tdst.State().Clip(false)\n\t\tdst.Rectangle(0, 0, width, height)"),
+ ("c14-empty-clip", "C14", "C14.R1", "html/document/draw.go", "\t\t\tif len(clippedBoxes) == 0 {\n", "\t\t\tif false {\n"),
+ ("c14-anchor-twice", "C14", "C14.R3", "html/document/document.go", "\t\t\tif !anchors.Has(anchorName) {\n\t\t\t\tpos := page.anchors[anchorName]", "\t\t\tif true {\n\t\t\t\tpos := page.anchors[anchorName]"),
+ ("c14-dangling-link", "C14", "C14.R3", "html/document/document.go", "\t\t\t\tif !anchors.Has(link.Target) {\n", "\t\t\t\tif !anchors.Has(link.Target) && link.Target == \"\" {\n"),
+ ("c14-meta-swap", "C14", "C14.R4", "html/document/document.go", "target.SetCreator(d.Metadata.Generator)", "target.SetCreator(d.Metadata.Description)"),
+ ("c14-font-cache", "C14", "C14.R5", "text/draw/draw_pango.go", "\t\t\toutRun.Font = (*pangoFont)(pFont)\n", "\t\t\toutRun.Font = (*pangoFont)(glyphItem.Item.Analysis.Font.(*fcfonts.Font))\n"),
+ ("c15-grid-names", "C15", "C15.R1", "html/layout/grid.go", "\t\t\t\ttracksList = append(tracksList, copyNames(track))\n", "\t\t\t\ttracksList = append(tracksList, track)\n"),
+ ("c15-hyphen-write", "C15", "C15.R1", "text/hyphen/hyphen.go", "\t\t\tdata := *index.Data\n", "\t\t\tdata := index.Data\n"),
+ ("c18-arity", "C18", "C18.R1", "svg/elements_path.go", "if !c.hasSetsOrMore(6, rel) {", "if !c.hasSetsOrMore(4, rel) {"),
+ ("c18-h-axis", "C18", "C18.R1", "svg/elements_path.go", "\t\t\tc.lineTo(p, c.currentY)\n", "\t\t\tc.lineTo(p, c.currentX)\n"),
  # behaviour-preserving edits: must stay silent
  ("ok-rename-local", "C03", "", "html/tree/style.go", "oldWeight := style[decl.Name].weight\n\t\t\tif oldWeight.isNone() || oldWeight.Less(we) {", "previous := style[decl.Name].weight\n\t\t\tif previous.isNone() || previous.Less(we) {"),
  ("ok-early-continue", "C03", "", "html/tree/style.go", "\t\t\tif oldWeight.isNone() || oldWeight.Less(we) {\n\t\t\t\tstyle[decl.Name] = weigthedValue{weight: we, value: decl.Value, shortand: decl.Shortand}\n\t\t\t}\n\t\t}\n\t}\n\n\t// First, add", "\t\t\tif !(oldWeight.isNone() || oldWeight.Less(we)) {\n\t\t\t\tcontinue\n\t\t\t}\n\t\t\tstyle[decl.Name] = weigthedValue{weight: we, value: decl.Value, shortand: decl.Shortand}\n\t\t}\n\t}\n\n\t// First, add"),
+ ("ok-grid-copy-form", "C15", "", "html/layout/grid.go", "\tnames, _ := track.(pr.GridNames)\n\treturn append(pr.GridNames(nil), names...)", "\tnames, _ := track.(pr.GridNames)\n\tout := make(pr.GridNames, len(names))\n\tcopy(out, names)\n\treturn out"),
+ ("ok-marker-len", "C01", "", "html/boxes/build.go", 'markerText != "" {', 'len(markerText) != 0 {'),
+ ("ok-clip-var", "C14", "", "html/document/draw.go", "\t\t\tif len(clippedBoxes) == 0 {\n", "\t\t\tif n := len(clippedBoxes); n == 0 {\n"),
  ("ok-matrix-reorder", "C17", "", "matrix/matrix.go", "out.A = t1.A*t2.A + t1.C*t2.B", "out.A = t1.C*t2.B + t2.A*t1.A"),
 ]
 
